@@ -353,12 +353,39 @@ def _check_exit_state(idx: Index, r) -> None:
         r.fail(g.fq, Finding("C25.R5", g.fq, "exit-state", "set_to_exit_state must mark the lattice live and propagate the change: " + "; ".join(bad_x[:2]), g.loc))
 
 
+def check_visit_every_op(idx: Index, rep: Report) -> None:
+    """The backward analysis is driven through visit(point): a point that names an operation must always reach
+    visit_operation - ProgramPoint.before(first_op) equals the 'start of block' point, so filtering block starts skips
+    the first operation of every block."""
+    from ..paths import enum_paths
+
+    r = rep.rule("C25.R6", "SparseBackwardDataFlowAnalysis.visit runs the transfer function for every program point that names an operation", floor=1)
+    f = idx.func(SA, "SparseBackwardDataFlowAnalysis.visit")
+    pt = f.node.args.args[1].arg
+    n = 0
+    for pth in enum_paths(f.node):
+        if not pth.feasible():
+            continue
+        nf = pth.nfacts()
+        if (f"{pt}.op is None", True) in nf:
+            continue
+        n += 1
+        called = any(isinstance(e_, ast.Expr) and isinstance(e_.value, ast.Call) and call_attr(e_.value) == "visit_operation" for e_ in pth.effects)
+        if not called:
+            r.fail(f.fq, Finding("C25.R6", f.fq, "operation-point-skipped", f"a path under {sorted(t_ + ('' if p_ else ' : False') for t_, p_ in nf)[:3]} returns without visit_operation although the point may name an operation: `ProgramPoint.at_start_of_block(b)` is the same point as `ProgramPoint.before(b.first_op)`, so the first operation of every block is never transferred and the block arguments / values it uses stay dead", f.loc))
+            return
+    if n == 0:
+        raise AnalysisError(f"{f.fq}: no path for a point that names an operation")
+    r.ok(f.fq, f"{f.loc} visit_operation({pt}.op) on every path with an operation")
+
+
 def check(idx: Index, rep: Report, tier: str) -> str:
     rep.run(check_monotone, idx, rep)
     rep.run(check_propagation, idx, rep)
     rep.run(check_dependencies, idx, rep)
     rep.run(check_solver, idx, rep)
     rep.run(check_transfer, idx, rep)
+    rep.run(check_visit_every_op, idx, rep)
     return (
         "Premise-by-premise check of the classical argument 'monotone transfer + every change notifies all dependents + "
         "every read lattice is a registered dependency + drained worklist => unique least fixpoint independent of the "
